@@ -182,6 +182,7 @@ structure Cfg where
   recover : Bool := false                  -- !doNotRecover
   recoverScript : Option (List Act) := none -- custom RecoverHandler; none = logStackOnRecover
   plainScript : List Act := []             -- the http.Handler behind Handle / HandleWithFilter
+  customErr : Bool := false                -- a custom ServiceErrorHandler writing "E<code>" (the library's message texts are not part of any property)
   deriving Repr
 
 inductive Entry where
@@ -320,6 +321,11 @@ def finishDispatch (cfg : Cfg) (s : St) (p : Option Str) : St × Option Str × N
     if cfg.recover then (closeComp (runRecover cfg s), none, 1)
     else (closeComp s, some v, 0)
 
+/-- the text the service-error writer writes: the library's message, or "E<code>" when the harness
+    installed its own ServiceErrorHandler (message texts are not part of any property) -/
+def errMsg (E : ReEnv) (cfg : Cfg) (sr : SReq) (code : Nat) (tag : String) : Str :=
+  if cfg.customErr then 'E' :: (toString code).toList else errorMessage E cfg.routing sr.req tag
+
 /-- container.go:214 `dispatch` -/
 def dispatch (E : ReEnv) (cfg : Cfg) (sr : SReq) (s0 : St) : St × Option Str × Nat :=
   -- a panicking If-condition unwinds out of the closure that holds the read lock (its RUnlock is deferred)
@@ -330,7 +336,7 @@ def dispatch (E : ReEnv) (cfg : Cfg) (sr : SReq) (s0 : St) : St × Option Str ×
   | (.panic w, _) => finishDispatch cfg s0 (some w.toList)
   | (.error code allow, tag) =>
     -- the error chain: container filters around the service-error writer; no compressor is installed here
-    let t : Target := ⟨.errorWriter, errorScript code allow (errorMessage E cfg.routing sr.req tag)⟩
+    let t : Target := ⟨.errorWriter, errorScript code allow (errMsg E cfg sr code tag)⟩
     let (_, s1, p) := runChain (label .cfilter cfg.cfilters) t {} s0
     finishDispatch cfg s1 p
   | (.selected svc rid ps, _) =>
